@@ -2,8 +2,17 @@
 import importlib
 import json
 import os
+import signal
 import sys
 import traceback
+
+
+class CaseTimeout(BaseException):
+    pass
+
+
+def _on_alarm(signum, frame):
+    raise CaseTimeout()
 
 
 def main():
@@ -21,7 +30,14 @@ def main():
         out = []
         for case in msg['batch']:
             try:
-                r = fn(case)
+                signal.signal(signal.SIGALRM, _on_alarm)
+                signal.alarm(int(case.get('timeout', 20)) if isinstance(case, dict) else 20)
+                try:
+                    r = fn(case)
+                finally:
+                    signal.alarm(0)
+            except CaseTimeout:
+                r = {'status': 'inconclusive', 'reason': 'case-timeout (watchdog: the call did not return in time)'}
             except BaseException as e:  # harness failure is never a property violation
                 if isinstance(e, (KeyboardInterrupt, SystemExit)):
                     raise
